@@ -73,6 +73,14 @@ func (a *AdmitCase) review(uid string, noise int) []byte {
 	apiVersion, kind := kindOf(a.Res)
 	gv := metav1.GroupVersionKind{Group: groupOf(a.Res), Version: "v1", Kind: kind}
 	gvr := metav1.GroupVersionResource{Group: groupOf(a.Res), Version: "v1", Resource: a.Res}
+	switch a.AttrNoise { // the same attributes as attributes() hands the library directly
+	case 1:
+		gvr.Version = "v1beta1"
+	case 2:
+		gv = metav1.GroupVersionKind{Group: "apps", Version: "v1", Kind: "Deployment"}
+	case 3:
+		gv.Version = "v2"
+	}
 	req := &admissionv1.AdmissionRequest{UID: types.UID(uid), Kind: gv, Resource: gvr, SubResource: a.Sub, RequestKind: &gv, RequestResource: &gvr, RequestSubResource: a.Sub,
 		Name: a.Name, Namespace: a.NS, Operation: a.Op, UserInfo: authenticationv1.UserInfo{Username: a.User}}
 	if noise%2 == 1 { // request fields no property mentions
